@@ -15,7 +15,7 @@
 (* (SlimAPI): ks, vals, hasvals, o, R (retained indexes), rp (position of  *)
 (* key i in R or 0), nodes (Model table), valset.                          *)
 (***************************************************************************)
-EXTENDS SlimStream
+EXTENDS SlimEncode
 
 Report(l, code, bad) ==
   IF bad = {} THEN TRUE
@@ -175,6 +175,32 @@ RenderBad(c, e) ==
         THEN {"leaf-values"} ELSE {})
 RenderDrift(c, e) ==
   IF e.pan = "" /\ e.bad = 0 /\ e.lines # ModelRender(c.nodes, c.o, c.vals, c.hasvals) THEN {"render"} ELSE {}
+
+\* ---- Level B: the stored message = Encode(content) ------------------------------
+BMSame(m, e) ==
+  /\ e.nwords = m.nwords
+  /\ (m.nwords >= 0 => /\ {e.bits[x] : x \in 1..Len(e.bits)} = m.bits
+                         /\ e.rank = m.rank /\ e.sel = m.sel)
+EncodingDiff(c, e) ==
+  LET m == Encode(c) IN
+  (IF e.bigcnt # m.bigcnt \/ e.shortsize # m.shortsize \/ e.shorttable # m.shorttable THEN {"header-fields"} ELSE {})
+  \cup (IF ~BMSame(m.nodetype, e.nodetype) THEN {"NodeTypeBM"} ELSE {})
+  \cup (IF ~BMSame(m.inners, e.inners) THEN {"Inners"} ELSE {})
+  \cup (IF ~BMSame(m.shortbm, e.shortbm) THEN {"ShortBM"} ELSE {})
+  \cup (IF ~ /\ e.ip.present /\ e.ip.eltcnt = m.ip.eltcnt /\ e.ip.fixed = m.ip.fixed /\ e.ip.bytes = m.ip.bytes
+              /\ BMSame(m.ip.presence, e.ip.presence) /\ BMSame(m.ip.position, e.ip.position)
+        THEN {"InnerPrefixes"} ELSE {})
+  \cup (IF e.lp.present # m.lp.present THEN {"LeafPrefixes-presence"}
+        ELSE IF m.lp.present /\ ~ /\ e.lp.bytes = m.lp.bytes /\ BMSame(m.lp.presence, e.lp.presence)
+                                    /\ BMSame(m.lp.position, e.lp.position)
+        THEN {"LeafPrefixes"} ELSE {})
+  \cup (IF e.leaves.present # m.leaves.present THEN {"Leaves-presence"}
+        ELSE IF m.leaves.present /\ ~ /\ e.leaves.n = m.leaves.n /\ e.leaves.eltcnt = m.leaves.eltcnt
+                                        /\ e.leaves.fixed = m.leaves.fixed /\ e.leaves.bytes = m.leaves.bytes
+                                        /\ BMSame(m.leaves.presence, e.leaves.presence)
+                                        /\ BMSame(m.leaves.position, e.leaves.position)
+        THEN {"Leaves"} ELSE {})
+  \cup (IF e.unknown # 0 THEN {"unknown-fields"} ELSE {})
 
 \* ---- Stat (C18) -------------------------------------------------------------
 StatBad(c, e) ==
